@@ -199,7 +199,7 @@ def worker(pid: str, tier: str, seed: int, shard: int, nshards: int, outpath: st
             data["hung_case"] = case.to_json() if hasattr(case, "to_json") else str(case)
             in_corpus = progress["stage"] == "corpus"
             data["resume"] = {
-                "attempt": attempt + 1,
+                "depth": int((resume or {}).get("depth", 0)) + 1,
                 "corpus_next": (progress["corpus_i"] + 1) if in_corpus else None,
                 "generated_left": (mod.budget(tier) // nshards) if in_corpus else max(0, progress["gen_left"]),
                 "extra_done": progress["stage"] == "extra",
@@ -345,6 +345,7 @@ def run_check(pid: str, tier: str, seed: int) -> int:
 
     for shard in range(NSHARDS):
         start(shard, None)
+    restarts = [0]
     hard = soft + 180.0
     harness_errors = []
     hung = []
@@ -373,8 +374,17 @@ def run_check(pid: str, tier: str, seed: int) -> int:
                 part = json.load(fh)
             total.merge(part)
             given_up.append({"shard": shard, "case": part.get("hung_case")})
-            if int(part["resume"]["attempt"]) <= 4 and time.time() - t0 < soft:
-                start(shard, part["resume"])
+            res = part["resume"]
+            if int(res["depth"]) <= 4 and time.time() - t0 < soft:
+                # the other shards are finishing: spread what is left over four processes
+                left = int(res.get("generated_left", 0))
+                parts = 4 if left >= 400 else 1
+                for j in range(parts):
+                    restarts[0] += 1
+                    sub = dict(res, attempt=restarts[0], generated_left=left // parts + (left % parts if j == 0 else 0))
+                    if j > 0:
+                        sub["corpus_next"], sub["extra_done"] = None, True
+                    start(shard, sub)
             continue
         if proc.returncode != 0 or not os.path.exists(outpath):
             harness_errors.append(f"shard {shard} exit {proc.returncode}: {err.decode(errors='replace')[-1500:]}")
